@@ -388,15 +388,18 @@ class StreamResponse(
         if self._cookies:
             populate_with_cookies(headers, self._cookies)
 
+        if self._chunked and version != HttpVersion11:
+            # Refuse before the request's StreamWriter has been touched: the
+            # error page that answers this exception is sent through it.
+            raise RuntimeError(
+                "Using chunked encoding is forbidden "
+                f"for HTTP/{request.version.major}.{request.version.minor}"
+            )
+
         if self._compression:
             await self._start_compression(request)
 
         if self._chunked:
-            if version != HttpVersion11:
-                raise RuntimeError(
-                    "Using chunked encoding is forbidden "
-                    f"for HTTP/{request.version.major}.{request.version.minor}"
-                )
             if not self._must_be_empty_body:
                 writer.enable_chunking()
                 headers[hdrs.TRANSFER_ENCODING] = "chunked"
